@@ -6,8 +6,12 @@ import (
 	"encoding/json"
 	"fmt"
 	"io"
+	"os"
 	"os/exec"
+	"strconv"
 	"strings"
+	"sync/atomic"
+	"syscall"
 	"testing"
 	"time"
 
@@ -117,6 +121,52 @@ type c14Result struct {
 	timedOut        bool
 	pausedAfterExit bool
 	heldOpen        bool // HoldInput: the output stream did not end while the input stayed open
+	blockedFD       int  // the command sat in write(blockedFD) with nothing reaching the reader for 15 s
+	blockedAt       int  // bytes received by then
+}
+
+// liveChildren lists the processes started by this one that are still running.
+func liveChildren() []int {
+	var out []int
+	ents, _ := os.ReadDir("/proc")
+	self := os.Getpid()
+	for _, e := range ents {
+		pid, err := strconv.Atoi(e.Name())
+		if err != nil {
+			continue
+		}
+		b, err := os.ReadFile("/proc/" + e.Name() + "/stat")
+		if err != nil {
+			continue
+		}
+		// pid (comm) state ppid ...; comm may hold spaces and parentheses
+		i := bytes.LastIndexByte(b, ')')
+		f := strings.Fields(string(b[i+1:]))
+		if i < 0 || len(f) < 2 || f[0] == "Z" {
+			continue
+		}
+		if ppid, _ := strconv.Atoi(f[1]); ppid == self {
+			out = append(out, pid)
+		}
+	}
+	return out
+}
+
+// childBlockedWriting reports the descriptor (1 or 2) a child of this process
+// is blocked writing to, and the child; 0 if there is none.
+func childBlockedWriting() (fd, pid int) {
+	for _, pid := range liveChildren() {
+		b, err := os.ReadFile(fmt.Sprintf("/proc/%d/syscall", pid))
+		if err != nil {
+			continue
+		}
+		f := strings.Fields(string(b))
+		// x86-64 and arm64 number write differently; both are accepted
+		if len(f) >= 2 && (f[0] == "1" || f[0] == "64") && (f[1] == "0x1" || f[1] == "0x2") {
+			return int(f[1][2] - '0'), pid
+		}
+	}
+	return 0, 0
 }
 
 func runC14(c C14Case) c14Result {
@@ -151,6 +201,7 @@ func runC14(c C14Case) c14Result {
 	exited := make(chan struct{})
 	go func() { goDone <- sh.Go(context.Background()) }()
 	var res c14Result
+	var progress atomic.Int64
 	readDone := make(chan struct{})
 	go func() {
 		defer close(readDone)
@@ -162,6 +213,7 @@ func runC14(c C14Case) c14Result {
 		for {
 			n, err := out.Read(buf)
 			res.got = append(res.got, buf[:n]...)
+			progress.Add(int64(n))
 			if err != nil {
 				res.readErr = err
 				return
@@ -194,13 +246,40 @@ func runC14(c C14Case) c14Result {
 	// note when the child has exited (Process.Wait cannot be used, Go owns it):
 	// poll ProcessState through Go's return instead
 	var goErr error
-	select {
-	case goErr = <-goDone:
-		close(exited)
-	case <-time.After(90 * time.Second):
-		res.timedOut = true
-		cmd.Process.Kill()
-		return res
+	deadline := time.After(90 * time.Second)
+	tick := time.NewTicker(time.Second)
+	defer tick.Stop()
+	lastN, still := int64(-1), 0
+wait:
+	for {
+		select {
+		case goErr = <-goDone:
+			close(exited)
+			break wait
+		case <-tick.C:
+			// A time limit is not a verdict, but a command that sits in a
+			// write to its own stdout or stderr while the reader of the output
+			// stream has received nothing for 15 s is: that stream is not
+			// being drained (the reader's own pauses are milliseconds).
+			if n := progress.Load(); n != lastN {
+				lastN, still = n, 0
+				continue
+			}
+			if still++; still < 15 {
+				continue
+			}
+			if fd, pid := childBlockedWriting(); fd != 0 {
+				res.blockedFD, res.blockedAt = fd, int(lastN)
+				syscall.Kill(pid, syscall.SIGKILL)
+				return res
+			}
+		case <-deadline:
+			res.timedOut = true
+			for _, pid := range liveChildren() {
+				syscall.Kill(pid, syscall.SIGKILL)
+			}
+			return res
+		}
 	}
 	res.goErr = goErr
 	select {
@@ -226,6 +305,9 @@ func checkC14(c C14Case) (key, what string, res c14Result) {
 	res = runC14(c)
 	if res.heldOpen {
 		return "output-not-ended-while-input-open", "the command exited (it never reads its input) but 30 s later the output stream had not ended; it only ended once the input stream was closed", res
+	}
+	if res.blockedFD != 0 {
+		return "child-output-not-drained", fmt.Sprintf("the command has been blocked writing to its descriptor %d for 15 s while the reader of the output stream was waiting and had received %d bytes: one of its output streams is not being relayed while the other is open", res.blockedFD, res.blockedAt), res
 	}
 	if res.timedOut {
 		return "TIMEOUT", "stream or Go did not finish within 90 s", res
